@@ -115,7 +115,12 @@ func runC11H(s *kernel.Sim) {
 		id, seq string
 		reqT    time.Duration
 		pinned  int // version current when its request was processed
+		// same-id retries: responses seen so far / further attempts to come
+		answered bool
+		attempts int
 	}
+	sameID := tp.Chance(1, 3)
+	s.Knobs["answered_transaction_ids_return"] = sameID
 	var open []*txn
 	var seqs []string // sequence ids that have had at least one attempt
 	n := 0
@@ -141,7 +146,24 @@ func runC11H(s *kernel.Sim) {
 		case c == 1:
 			k := tp.Choose(len(open))
 			t := open[k]
-			open = append(open[:k], open[k+1:]...)
+			// the transaction id comes from the client and a retried call may keep it: in a
+			// third of the runs an answered transaction may come back under its id - the
+			// request of its next attempt, then that attempt's response. It is the same
+			// transaction: the version of its first request stands.
+			if sameID && tp.Chance(1, 2) {
+				t.attempts++
+				s.FaultFired("transaction_id_returns_after_its_response")
+			} else {
+				open = append(open[:k], open[k+1:]...)
+			}
+			if t.answered {
+				if _, err := routing.VerifProcessRequest(reqMsgOf(t.id, t.seq), mgr); err != nil {
+					s.Violate("R1", "process-error", "processRequest(%s): %v", t.id, err)
+					return
+				}
+				s.Event("request", t.id, t.seq, "again")
+			}
+			t.answered = true
 			acts, err := routing.VerifProcessResponse(respMsgOf(t.id, t.seq, 500), mgr)
 			if err != nil {
 				s.Violate("R1", "process-error", "processResponse(%s): %v", t.id, err)
